@@ -341,6 +341,19 @@ impl Prop for C07 {
 
     fn run_case(&mut self, cx: &CaseCx, out: &mut Out) {
         let mut r = xo(cx.seed);
+        // an event names a machine through a MachineId: the id must be the number it was made from, or a
+        // completion addressed to another (or to no) machine would count for this one
+        for x in [0usize, 1, 255, 256, 65_535, 65_536, u32::MAX as usize, 1usize << 32, (1usize << 32) + (cx.case as usize % 4), (7usize << 32) + 1, usize::MAX - 1, usize::MAX] {
+            let back = maybenot::MachineId::from_raw(x).into_raw();
+            if back != x {
+                out.violation(
+                    "C07/machine-id-does-not-keep-its-number".to_string(),
+                    format!("MachineId::from_raw({x}).into_raw() = {back}: a completion reported for machine {x} is taken for one of machine {back}"),
+                    json!({"raw": x, "back": back}),
+                );
+                return;
+            }
+        }
         let n = r.range(1, 4) as usize;
         let directed = cx.case % 32 == 0;
         let machines: Vec<Machine> = if directed {
